@@ -22,6 +22,7 @@
 import BMV.Bond
 import BMV.Isa
 import BMV.Rtl
+import BMV.Kpn
 namespace BMV.Bm
 open BMV BMV.Bits BMV.Topology
 
@@ -317,23 +318,25 @@ def isaHazard (a : Arch) (prog : List Bits) (s : VmState) : Bool :=
   match decode a prog s.pc with
   | some ("i2rw", body) =>
     let k := Isa.field body a.r a.inBits
-    s.inValid.getD k false && s.inRecv.getD k false &&
+    (s.inValid[k]? == some true) && (s.inRecv[k]? == some true) &&
       (match Isa.step a prog s with | some s' => s'.pc != s.pc | none => false)
   | some ("r2owa", body) =>
     let o := Isa.field body a.r a.outBits
-    !s.outValid.getD o false && s.outRecv.getD o false &&
+    (s.outValid[o]? == some false) && (s.outRecv[o]? == some true) &&
       (match Isa.step a prog s with | some s' => s'.pc != s.pc || s'.outValid.getD o false | none => false)
   | _ => false
 
-/-- hardware: the `i2rw` arm fires while `iK_recv` is still up; `r2owa` starts (waitsm = 0) while
-    `oK_val` is still up and received, and valid does not drop (the producer then waits for ever) -/
+/-- hardware (decoded as the hardware decodes: part-selects of the ROM word): the `i2rw` arm fires
+    while `iK_recv` is still up; `r2owa` starts (waitsm = 0) while `oK_val` is still up and
+    received, and valid does not drop (the producer then waits for ever) -/
 def rtlHazard (a : Arch) (prog : List Bits) (s : RtlState) (p : PortsIn) : Bool :=
-  match decode a prog s.pc with
-  | some ("i2rw", body) =>
-    let k := Isa.field body a.r a.inBits
+  let cur := Rtl.fetch prog s.pc
+  match Rtl.curOp a cur with
+  | some "i2rw" =>
+    let k := Rtl.part cur a.maxWord (a.opBits + a.r) a.inBits
     p.inValid.getD k false && s.iRecv.getD k false && (Rtl.cycle a prog s p).pc != s.pc
-  | some ("r2owa", body) =>
-    let o := Isa.field body a.r a.outBits
+  | some "r2owa" =>
+    let o := Rtl.part cur a.maxWord (a.opBits + a.r) a.outBits
     !s.waitsm && s.oVal.getD o false && p.outRecv.getD o false && (Rtl.cycle a prog s p).oVal.getD o false
   | _ => false
 
@@ -371,5 +374,117 @@ def runRtl (m : Machine) (spec : EnvSpec) : Nat → HwState × EnvSt × Bool →
     let env' := envStep spec env (observeHw m.topo h (envDrive env))
     let e := envDrive env'
     runRtl m spec n (rtlCycle m h e, env', hz || bmRtlHazard m h e)
+
+/-! ### the reference semantics: the machine as a blocking-IO process network (BMV.Kpn.ChanNet)
+
+  Agents: every processor, every external input (a writer of its value stream), every external
+  output (a reader).  Channels = internal outputs (numbered as in `Internal_outputs`), reader slots
+  = internal inputs (numbered as in `Internal_inputs` / `Links`).  A processor's next action is
+  decided by the instruction at its pc: `i2rw r, iE` = blocking read of the slot of `pPiE` into
+  `r`; `r2owa r, oE` = blocking write of `r` to the channel of `pPoE`; anything else = the
+  simulator's `Isa.exec` (an internal step).  Unbonded ports block for ever.  Timing (stalls,
+  idle and acknowledge delays of the environment) is not in this semantics: it is the schedule. -/
+
+inductive RefAgent where
+  | proc (p : Nat)
+  | envIn (k : Nat)
+  | envOut (k : Nat)
+deriving DecidableEq, Repr
+
+inductive RefLoc where
+  | proc (v : VmState)
+  | inp (idx : Nat)
+  | out
+deriving Repr, Inhabited
+
+def slotOf (t : Topo) (s : Bond) : Option Nat := t.iin.findIdx? (· = s)
+
+/-- the channel that slot `i` listens to -/
+def chanOfSlot (t : Topo) (i : Nat) : Option Nat := (t.links[i]?).join
+
+def procAct (t : Topo) (a : Arch) (prog : List Bits) (p : Nat) (v : VmState) : Kpn.Act RefLoc :=
+  match decode a prog v.pc with
+  | none => .blocked
+  | some (op, body) =>
+    if op = "i2rw" then
+      let r := Isa.field body 0 a.r
+      let e := Isa.field body a.r a.inBits
+      match slotOf t ⟨2, p, e⟩ with
+      | none => .blocked
+      | some slot =>
+        match chanOfSlot t slot with
+        | none => .blocked
+        | some ch => .read slot ch (fun x => .proc { v with regs := v.regs.set r x, pc := v.pc + 1 })
+    else if op = "r2owa" then
+      let r := Isa.field body 0 a.r
+      let e := Isa.field body a.r a.outBits
+      match idxOfOut t ⟨3, p, e⟩ with
+      | none => .blocked
+      | some ch => .write ch (v.regs.getD r 0) (.proc { v with pc := v.pc + 1 })
+    else
+      match Isa.exec a prog.length op body v with
+      | some v' => .internal (.proc v')
+      | none => .blocked
+
+def refAct (m : Machine) (spec : EnvSpec) : RefAgent → RefLoc → Kpn.Act RefLoc
+  | .proc p, .proc v =>
+    match m.archs[p]?, m.progs[p]? with
+    | some a, some prog => procAct m.topo a prog p v
+    | _, _ => .blocked
+  | .envIn k, .inp idx =>
+    let vals := spec.vals.getD k []
+    if vals.length = 0 then .blocked
+    else match idxOfOut m.topo ⟨0, k, 0⟩ with
+      | none => .blocked
+      | some ch => .write ch (cyc vals idx) (.inp (idx + 1))
+  | .envOut k, _ =>
+    match slotOf m.topo ⟨1, k, 0⟩ with
+    | none => .blocked
+    | some slot =>
+      match chanOfSlot m.topo slot with
+      | none => .blocked
+      | some ch => .read slot ch (fun _ => .out)
+  | _, _ => .blocked
+
+/-- the slots of `Links` that point at channel `j` -/
+def slotsOfChan (t : Topo) (j : Nat) : List Nat :=
+  t.links.zipIdx.filterMap fun (l, i) => if l = some j then some i else none
+
+def slotOwner (t : Topo) (i : Nat) : RefAgent :=
+  match t.iin[i]? with
+  | some b => if b.kind = 2 then .proc b.res else .envOut b.res
+  | none => .envOut 0
+
+def chanOwner (t : Topo) (j : Nat) : RefAgent :=
+  match t.iout[j]? with
+  | some b => if b.kind = 3 then .proc b.res else .envIn b.res
+  | none => .envIn 0
+
+def refNet (m : Machine) (spec : EnvSpec) : Kpn.ChanNet RefAgent RefLoc :=
+  { act := refAct m spec
+    slotsOf := slotsOfChan m.topo
+    slotOwner := slotOwner m.topo
+    chanOwner := chanOwner m.topo }
+
+def refInit (m : Machine) : Kpn.NState RefAgent RefLoc :=
+  { loc := fun i => match i with
+      | .proc p => .proc (match m.archs[p]? with | some a => Isa.init a | none => {})
+      | .envIn _ => .inp 0
+      | .envOut _ => .out
+    sent := fun _ => 0, val := fun _ => 0, cnt := fun _ => 0, got := fun _ => [] }
+
+/-- per external output the values its reader slot has taken -/
+def refStreams (t : Topo) (σ : Kpn.NState RefAgent RefLoc) : List (List Nat) :=
+  (List.range t.outputs).map fun k => match slotOf t ⟨1, k, 0⟩ with | some s => σ.got s | none => []
+
+/-- all agents of a machine, for round-robin schedules -/
+def refAgents (m : Machine) : List RefAgent :=
+  (List.range m.topo.procs.length).map .proc ++ (List.range m.topo.inputs).map .envIn
+    ++ (List.range m.topo.outputs).map .envOut
+
+/-- `rounds` round-robin rounds; an agent that is not enabled is skipped -/
+def refRun (m : Machine) (spec : EnvSpec) (rounds : Nat) : Kpn.NState RefAgent RefLoc :=
+  (List.range rounds).foldl (fun σ _ =>
+    (refAgents m).foldl (fun σ i => ((refNet m spec).step i σ).getD σ) σ) (refInit m)
 
 end BMV.Bm
